@@ -51,11 +51,19 @@ def _leaf(f, e):
     return _truthy(canonical_atom(f, e, True))
 
 
-def tree_of(f, e):
+def tree_of(f, e, depth=3):
+    if isinstance(e, ast.Name) and depth > 0:
+        # a boolean local stands for the test it was assigned
+        from .conddrift import _definition
+        d = _definition(f, e)
+        if isinstance(d, (ast.BoolOp, ast.Compare)) or (
+                isinstance(d, ast.UnaryOp) and isinstance(d.op, ast.Not)):
+            return tree_of(f, d, depth - 1)
     if isinstance(e, ast.BoolOp):
-        return ['and' if isinstance(e.op, ast.And) else 'or'] + [tree_of(f, v) for v in e.values]
+        return ['and' if isinstance(e.op, ast.And) else 'or'] + [tree_of(f, v, depth)
+                                                                 for v in e.values]
     if isinstance(e, ast.UnaryOp) and isinstance(e.op, ast.Not):
-        return ['not', tree_of(f, e.operand)]
+        return ['not', tree_of(f, e.operand, depth)]
     if isinstance(e, ast.Constant) and isinstance(e.value, (bool, type(None), int)):
         return ['const', bool(e.value)]
     return ['leaf', _leaf(f, e)]
@@ -111,7 +119,10 @@ def _strip_memo(occ, other_vars, other_keys=None):
                 if set(vs) <= other_vars:
                     c2.append(t[1])
             elif t[0] == 'rx':
-                if other_keys is None or any(k in other_keys for k in t[1]):
+                vs = {}
+                _vars(t[2], vs)
+                if (other_keys is None or any(k in other_keys for k in t[1])) and \
+                        set(vs) <= other_vars:
                     c2.append(t[2])
             else:
                 c2.append(t)
